@@ -26,7 +26,8 @@ EXPLANATION = (
     'decomposition contract with orthonormal eigenvectors). An operator the normalisers do not know is an ANALYSIS-ERROR, never '
     'a violation. Not decided: the principal-angle route (a theorem, not a rewriting), the GMD sweep, Sherman-Morrison and '
     'the eigen/singular selectors as numbers, floating-point error and conditioning.'
-    ' General rules also applied here (see DESIGN 10.5): input immutability (no in-place modification of an array argument, alias- and view-aware).')
+    ' General rules also applied here (see DESIGN 10.5): input immutability (no in-place modification of an array argument, alias- and view-aware).'
+    ' C20.i: singular values are never multiplied elementwise with V^H without a new axis (columns instead of rows).')
 
 PAIRS = [('linear2dB', 'dB2Linear'), ('dB2Linear', 'linear2dB'), ('linear2dBm', 'dBm2Linear'),
          ('dBm2Linear', 'linear2dBm'), ('EbN0_dB_to_SNR_dB', 'SNR_dB_to_EbN0_dB'),
@@ -379,6 +380,12 @@ def synthetic():
 
 
 MUTANTS = [
+    Mutant('singular-values-broadcast-over-columns', MISC, 'get_principal_component_matrix',
+           [('replace', 'out = np.dot(U, np.dot(newS, V_H[:, :num_components]))', 'out = np.dot(U[:, :num_components], S[:num_components] * V_H[:num_components, :num_components])')],
+           r'C20\.i:get_principal_component_matrix:svd-broadcast'),
+    Mutant('benign-singular-values-with-new-axis', MISC, 'get_principal_component_matrix',
+           [('replace', 'out = np.dot(U, np.dot(newS, V_H[:, :num_components]))', 'out = np.dot(U, np.dot(newS, V_H[:, :num_components])) + 0 * (S[:, np.newaxis] * V_H[:S.size])[:1, :1]')],
+           None, benign=True),
     Mutant('gmd-inverse-permutation-wrong-slot', MISC, 'gmd', [('replace', 'invperm[i] = j', 'invperm[k1] = j')], r'C20\.f:gmd'),
     Mutant('dBm2Linear-in-place', CONV, 'dBm2Linear', [('regex', r'    return dB2Linear\(valueIndBm\) / 1000\.0', '    valueIndBm -= 30\n    return dB2Linear(valueIndBm)')],
            r'C20\.e:dBm2Linear'),
